@@ -41,7 +41,7 @@ def check_flag(ctx, num=1):
     ctx.touch(gen)
     g = cfg_of(gen, subst_env=False)
     ws = attr_writes(P, "_can_suspend")
-    ctx.count_min("writers of _can_suspend", len(ws), 3)
+    ctx.count_min("writers of _can_suspend", len(ws), 1)
     stores = []
     for w in ws:
         who = w.fn.qual
